@@ -781,6 +781,18 @@ func (env *Env) call(x *ast.CallExpr) Val {
 		nenv := *env
 		nenv.st = le
 		return nenv.eval(x.Args[0])
+	case "distinctArrays":
+		a := env.eval(x.Args[0]).(*Term)
+		b := env.eval(x.Args[1]).(*Term)
+		return tb.Or(tb.Not(tb.Eq(m.SliceRef(a), m.SliceRef(b))), tb.Eq(m.SliceRef(a), tb.Int(0)))
+	case "unchanged":
+		// unchanged(s): the backing array of s holds what it held on entry
+		if env.old == nil {
+			panic(u.errf("contract: unchanged() needs a pre-state"))
+		}
+		sl := env.eval(x.Args[0]).(*Term)
+		et := env.typeOf(x.Args[0]).Underlying().(*types.Slice).Elem()
+		return tb.Eq(u.elemsArr(env.st, m.SliceRef(sl), et), u.elemsArr(env.old.st, m.SliceRef(sl), et))
 	case "sameOrFresh":
 		// sameOrFresh(res, src): res shares src's backing array (same start) or was
 		// freshly allocated by the call. Proved from the allocations the callee made;
@@ -788,13 +800,13 @@ func (env *Env) call(x *ast.CallExpr) Val {
 		res := env.eval(x.Args[0]).(*Term)
 		src := env.eval(x.Args[1]).(*Term)
 		same := tb.And(tb.Eq(m.SliceRef(res), m.SliceRef(src)), tb.Eq(m.SliceOff(res), m.SliceOff(src)), tb.Eq(m.SliceCap(res), m.SliceCap(src)))
-		if env.assuming {
-			f := u.freshRef(env.st, "callee_alloc")
-			return tb.Or(same, tb.And(tb.Eq(m.SliceRef(res), f), tb.Eq(m.SliceOff(res), m.IxConst(0))))
+		if env.assuming && env.old != nil {
+			// allocated during the call: not in the caller's allocation set before it
+			before := u.allocSet(env.old.st)
+			return tb.Or(same, tb.And(tb.Not(tb.Select(before, m.SliceRef(res))), tb.Lt(tb.Int(0), m.SliceRef(res)), tb.Eq(m.SliceOff(res), m.IxConst(0))))
 		}
-		// every allocation this function makes is outside Alloc0 (the objects that existed at entry)
-		m.UF("Alloc0", SBool, SInt)
-		return tb.Or(same, tb.And(tb.Not(tb.App("Alloc0", SBool, m.SliceRef(res))), tb.Lt(tb.Int(0), m.SliceRef(res)), tb.Eq(m.SliceOff(res), m.IxConst(0))))
+		// every allocation this function makes is outside the entry allocation set
+		return tb.Or(same, tb.And(tb.Not(u.isAlloc0(m.SliceRef(res))), tb.Lt(tb.Int(0), m.SliceRef(res)), tb.Eq(m.SliceOff(res), m.IxConst(0))))
 	case "implies":
 		return tb.Implies(env.eval(x.Args[0]).(*Term), env.eval(x.Args[1]).(*Term))
 	case "iff":
@@ -845,7 +857,18 @@ func (env *Env) call(x *ast.CallExpr) Val {
 				sig := fobj.Type().(*types.Signature)
 				if sig.Recv() != nil {
 					se := ast.Unparen(x.Fun).(*ast.SelectorExpr)
-					args = append(args, env.eval(se.X))
+					rv := env.eval(se.X)
+					_, recvIsPtr := sig.Recv().Type().Underlying().(*types.Pointer)
+					if pt, argIsPtr := env.typeOf(se.X).Underlying().(*types.Pointer); argIsPtr && !recvIsPtr {
+						// value receiver called through a pointer: dereference
+						switch p := rv.(type) {
+						case *Term:
+							rv = u.loadStruct(env.st, p, pt.Elem())
+						case *Ptr:
+							rv = u.load(env.st, p)
+						}
+					}
+					args = append(args, rv)
 				}
 				for i, a := range x.Args {
 					args = append(args, env.evalAs(a, sig.Params().At(i).Type()))
